@@ -234,7 +234,7 @@ pub fn gen_conc_case(seed: u64, id: usize, kind: &str) -> (Case, Vec<Vec<(Op, Op
         let nt = rng.range(2, 6) as usize;
         // focus region: same cluster / neighbouring clusters / disjoint
         let focus = rng.below(vs / cs + 1) * cs;
-        let mode = rng.below(5);
+        let mode = rng.below(7);
         // guest bytes covered by one L2 slice / one refblock slice worth of data clusters
         let l2_slice_bytes = case.l2.map(|(b, _)| (1u64 << b) / 8).unwrap_or(512) * cs;
         let mut ops: Vec<(Op, Option<usize>)> = Vec::new();
@@ -246,6 +246,8 @@ pub fn gen_conc_case(seed: u64, id: usize, kind: &str) -> (Case, Vec<Vec<(Op, Op
                 1 => focus + rng.below(3) * cs,
                 // sibling slices of one L2 table (different cache entries, same metadata cluster)
                 3 | 4 => (focus + rng.below(8) * l2_slice_bytes) % (vs / cs * cs).max(cs),
+                // slices of two different L2 tables (two fresh metadata clusters at a time)
+                5 | 6 => (focus + rng.below(2) * (cs / 8) * cs + rng.below(4) * l2_slice_bytes) % (vs / cs * cs).max(cs),
                 _ => rng.below(vs / cs + 1) * cs,
             };
             let mut off = (base + rng.below(cs / bs) * bs).min(vs - bs);
